@@ -575,8 +575,11 @@ def census(repo, tgs=None, units=None):
                 props_of.setdefault(f, []).append(d["id"])
     tied = {}
     for tg in tgs:
+        tu = (units or {}).get(tg["area"])
         for tup in tg["fns"]:
-            tied.setdefault((tg["rel"], tup[0] or None, tup[1]), []).append((tg["area"], tup[2], tup[3]))
+            # (b0507) a target taken from a `fns_from` file of its area counts for the file that defines it
+            src = getattr(tu, "fn_src", {}).get((tup[0] or None, tup[1])) if tu is not None else None
+            tied.setdefault((src.rel if src is not None else tg["rel"], tup[0] or None, tup[1]), []).append((tg["area"], tup[2], tup[3]))
     out = {}
     for rel in files:
         if not os.path.exists(os.path.join(repo, rel)):
